@@ -50,7 +50,7 @@ def flag_system(rng, system, phys):
 
 
 def make_job(ctx, rng, kind, size1=False, integer_state=False):
-    desc, phys, info = L.gen_system(rng, kind=kind, max_cells=1 if size1 else ctx.n(6, 16), chem_p=0.5, max_order=3 if integer_state else 4)
+    desc, phys, info = L.gen_system(rng, kind=kind, max_cells=1 if size1 else ctx.n(6, 16), chem_p=0.5, max_order=2 if integer_state else 4)
     system = L.build_system(desc)
     chem, mode = flag_system(rng, system, phys)
     us = ("µm", "s", "molecule") if integer_state else L.rand_sys(rng)
@@ -109,23 +109,19 @@ def check_kinetics(ctx, jobs):
                 no_terms = C1.py_has_no_terms(phys, i)
                 if chem[e]:
                     if got[0] == "error":
-                        if not (got[1] == "AttributeError" and no_terms):
-                            ctx.violation("chem-kinetics:raises", "compute_dspeciesdt raised %s on a chemostated entry" % got[1], case, impl=got[1], expected="0")
+                        ctx.violation("chem-kinetics:raises", "compute_dspeciesdt raised %s on a chemostated entry" % got[1], case, impl=got[1], expected="0")
                     elif got[0] != 0 or tuple(got[1]) != L.D_RATE:
                         ctx.violation("chem-kinetics:flagged-nonzero",
                                       "compute_dspeciesdt(apply_chemostats=True) of the chemostated entry (species %d, cell %d) is %r %s, not 0 amount/time"
                                       % (s, i, float(got[0]), got[1]), case, impl=float(got[0]), expected="0")
                 elif not jb["parallel"]:
-                    if got[0] == "error" and got[1] == "AttributeError" and no_terms:
-                        ctx.count("known_no_terms")
-                    else:
-                        C1.check_entry(ctx, got, exp, mag, U, case, "chem-kinetics:unflagged", "compute_dspeciesdt(apply_chemostats=True) of the free entry (species %d, cell %d)" % (s, i))
+                    C1.check_entry(ctx, got, exp, mag, U, case, "chem-kinetics:unflagged", "compute_dspeciesdt(apply_chemostats=True) of the free entry (species %d, cell %d)" % (s, i))
                 if m is not None and not C1.model_entry_matches(got, m["ok"]["entries"][e], mag):
                     ctx.disagree("dstate", case, None if got[0] == "error" else float(got[0]), m["ok"]["entries"][e])
                 # the flag is ignored when apply_chemostats=False
                 if chem[e] and not jb["parallel"]:
                     got2 = C1.kinetics_entry(system, s, i, False, U)
-                    if not (got2[0] == "error" and got2[1] == "AttributeError" and no_terms):
+                    if True:
                         C1.check_entry(ctx, got2, exp, mag, U, dict(case, apply=False), "chem-kinetics:ignore-flag",
                                        "compute_dspeciesdt(apply_chemostats=False) of the flagged entry (species %d, cell %d)" % (s, i))
 
@@ -223,12 +219,14 @@ def check_trajectories(ctx, jobs, replay_steps):
         for option in ("euler", "tauleap", "gillespie"):
             if option != "euler" and not jb.get("integer_state"):
                 continue
-            nsteps = ctx.rng.choice([3, 8, 25]) if option != "gillespie" else ctx.rng.choice([10, 40])
+            nsteps = ctx.rng.choice([3, 8, 25]) if option != "gillespie" else ctx.rng.choice([20, 60])
+            # stochastic engines: a time step large enough for events to happen in every run
+            dt_nat = jb["dt_nat"] if option == "euler" else ctx.rng.choice([Fraction(1, 4), Fraction(1, 8), Fraction(1, 16)])
             seed = ctx.rng.randrange(1, 2 ** 31 - 1)
             Us = jb["Uscript"] if option == "euler" else ("µm", "s", "molecule")
-            case = dict(base_case(jb, "trajectory"), option=option, nsteps=nsteps, seed=seed, Uscript=list(Us), dt_nat=rstr(jb["dt_nat"]))
+            case = dict(base_case(jb, "trajectory"), option=option, nsteps=nsteps, seed=seed, Uscript=list(Us), dt_nat=rstr(dt_nat))
             try:
-                script, traj, draws = run_engine(system, option, Us, jb["dt_nat"], nsteps, seed, with_draws=(option != "euler"))
+                script, traj, draws = run_engine(system, option, Us, dt_nat, nsteps, seed, with_draws=(option != "euler"))
             except Exception as ex:  # noqa
                 ctx.violation("chem-traj:raises", "%s run raised %s" % (option, type(ex).__name__), case, impl=type(ex).__name__)
                 continue
@@ -340,11 +338,11 @@ def run(ctx):
             ctx.notes.append("stopped generating after %d systems (time budget)" % k)
             break
         kind = "grid" if k % 2 == 0 else "graph"
-        integer_state = (k % 3 == 0)
+        integer_state = (k % 2 == 0) or (k % 3 == 0)
         jb = make_job(ctx, rng, kind, size1=(k % 5 == 4), integer_state=integer_state)
         jb["integer_state"] = integer_state
         jobs.append(jb)
-        if len(jobs) >= 18:
+        if len(jobs) >= 9:
             process(ctx, jobs)
             jobs = []
     if jobs:
